@@ -1872,6 +1872,10 @@ func patchCode(context *funcContext) { // {{{
 				}
 				distance = d
 				count++
+				if distance < 0 {
+					// the target lies behind: a JMP there is already patched, its sBx is a distance, not a label
+					break
+				}
 			}
 			if distance == 0 {
 				context.Code.SetOpCode(pc, OP_NOP)
